@@ -33,7 +33,7 @@ func init() {
 	fw.Register(&fw.Check{
 		ID: "C19",
 		Rule: "Part A: every list (length 1..2 quick, 1..3 thorough) of words over the alphabet {a,b,z,0,9}, word length <=3, first char a letter (93 words) is enumerated " +
-			"exhaustively for each of the 6 encoder/decoder pairs and Decode(Encode(list)) must equal list; plus seeded long lists (up to 8 words of up to 10 chars over [a-z0-9]). " +
+			"exhaustively for each of the 6 encoder/decoder pairs and Decode(Encode(list)) must equal list; plus seeded long lists (up to 8 words of up to 10 chars over [a-z0-9]), plus a length sweep: for every ENCODED length from 1 to 200 bytes a list of 1..4 words that encodes to exactly that length, for every scheme. " +
 			"Part B: Go identifiers assembled from the harness's own vocabulary (71 capitalised ordinary words of length >=2, five of them ending in digits (Sha256, Md5, Base64, Port2, Ab1), 38 initialisms, 9 plural initialisms such as IDs/URLs used only as the last word after an ordinary word): exhaustive for 1..2 items, seeded for 3..5 items; " +
 			"only names whose runs of initialisms have a unique segmentation are judged; DecodeGoCamelCase(name) must equal the generating words. " +
 			"distinct_nontrivial counts distinct (scheme, list) pairs with >=2 words (Part A, distinct by construction for the exhaustive part, hashed for seeded) plus distinct judged identifiers with >=2 items (Part B).",
@@ -42,6 +42,7 @@ func init() {
 			"single-letter-plus-digits words (V2, S3) are not in the vocabulary: capitalised they are all upper-case and their split from a neighbouring initialism is not fixed by the statement",
 		},
 		MinDistinct: map[string]int{"quick": 40000, "thorough": 3000000},
+		MinCounters: map[string]map[string]int64{"quick": {"length_sweep_round_trips": 4000}, "thorough": {"length_sweep_round_trips": 4000}},
 		Plan: func(tier string) fw.Plan {
 			if tier == "thorough" {
 				return fw.Plan{Shards: 16, CasesPerShard: 500000, TimeoutSec: 3000}
@@ -184,6 +185,47 @@ func runC19(w *fw.Worker) {
 	for l := 1; l <= maxLen; l++ {
 		pow *= nw
 		total += pow
+	}
+	if w.ReplayCase < 0 && w.Shard == 0 {
+		// ---- Part A length sweep: every ENCODED length from 1 to 200 bytes, with 1..4 words, for every scheme (length
+		// boundaries of the implementations - buffer sizes, fast paths - are invisible to a sweep over word lists)
+		for total := 1; total <= 200; total++ {
+			for n := 1; n <= 4 && n <= total; n++ {
+				for _, sc := range caseSchemes {
+					sep := 0
+					if e := sc.enc(caseconversion.DecodedIdentifier{"a", "b"}); len(e) == 3 {
+						sep = 1
+					}
+					letters := total - sep*(n-1)
+					if letters < n {
+						continue
+					}
+					ws := make([]string, n)
+					rest := letters
+					for k := 0; k < n; k++ {
+						l := rest / (n - k)
+						if k == n-1 {
+							l = rest
+						}
+						b := make([]byte, l)
+						for j := range b {
+							b[j] = byte('a' + (j+k+total)%26)
+						}
+						if l > 1 && (k+total)%3 == 0 {
+							b[l-1] = byte('0' + total%10) // a digit at the end of the word
+						}
+						ws[k] = string(b)
+						rest -= l
+					}
+					if enc := sc.enc(caseconversion.DecodedIdentifier(ws)); len(enc) != total {
+						continue
+					}
+					c19CheckRoundTrip(w, -1, sc, ws)
+					w.Eval(1)
+					w.Count("length_sweep_round_trips", 1)
+				}
+			}
+		}
 	}
 	if w.ReplayCase < 0 {
 		idx := 0
